@@ -18,7 +18,7 @@ EXPLANATION = ("MIXED: key-set behaviour of HTTPHeaders (__delitem__, __contains
                "satisfying the representation invariant cache-keys subset-of list-keys, for arbitrary names; the multimap semantics of "
                "values (join, order, add/parse_line/obs-fold, copy independence, str/parse round trip) by exhaustive operation sequences "
                "over 3 case-variant names against a reference model (bounded).")
-TRUSTED = ["A-NORM: _normalize_header as an uninterpreted idempotent function in the proof units (validated in the stand-in)", "dict model (SDict)"]
+TRUSTED = ["A-NORM: _normalize_header as an uninterpreted idempotent function in the symbolic units (its case-insensitivity is the finite-case unit _normalize_header.case-insensitive)", "dict model (SDict)", "str.join over a symbolic value list left uninterpreted (comma_join) in the __getitem__ unit"]
 ASSUMPTIONS = ["A-TYPES: names and values are str"]
 M = "tornado.httputil"
 
@@ -106,6 +106,110 @@ def u_setitem(c):
     c.oblige("inv/preserved", inv_after(h), kind="inv-preserve")
 
 
+class _Joinable:
+    """the value list of one name as str.join sees it: a single item comma_join(values) (str.join over a symbolic list is left uninterpreted)"""
+    def __init__(self, t):
+        self.t = t
+
+    def __iter__(self):
+        cj = z3.Function("comma_join", z3.SeqSort(z3.StringSort()), z3.StringSort())
+        return iter([SStr(cj(self.t))])
+
+
+@unit("C06", "HTTPHeaders.__getitem__", [(M, "HTTPHeaders.__getitem__")])
+def u_getitem(c):
+    """reading a name: KeyError iff it is absent from the list view; otherwise the memoized value when there is one, else the comma join of its values,
+    memoized under the normalized name only; the list view is unchanged and Inv is preserved (so a read never makes a name undeletable or
+    lets one spelling see a value another does not)."""
+    import tornado.httputil as U
+    if not c.symbolic:
+        h = U.HTTPHeaders()
+        for nm, k in (("Foo", c.rng.randint(0, 2) if c.rng else 2), ("Bar-Baz", 1)):
+            for j in range(k):
+                h.add(nm, "v%d" % j)
+        name = c.rng.choice(["foo", "FOO", "bar-BAZ", "nope"]) if c.rng else "fOO"
+        before = {k: list(v) for k, v in h._as_list.items()}
+        cache0 = dict(h._combined_cache)
+        out = c.call(c.fn(M, "HTTPHeaders.__getitem__"), h, name)
+        c.only_raises(out, (KeyError,))
+        nn = U._normalize_header(name)
+        c.oblige("raises/KeyError-iff-the-name-is-absent", out.returned == (nn in before))
+        if out.returned:
+            c.oblige("post/value-is-the-comma-join", out.value == ",".join(before[nn]))
+        c.oblige("frame/list-view-unchanged", before == h._as_list, kind="frame")
+        c.oblige("frame/memo-only-under-the-normalized-name", {k: v for k, v in h._combined_cache.items() if k != nn} == {k: v for k, v in cache0.items() if k != nn}, kind="frame")
+        c.oblige("inv/preserved", set(h._combined_cache) <= set(h._as_list), kind="inv-preserve")
+        return
+    h, norm = mk(c, wf=False)
+    h._as_list.vwrap = _Joinable
+    name = c.str("name")
+    L0 = (h._as_list.has, h._as_list.val)
+    C0 = (h._combined_cache.has, h._combined_cache.val)
+    with c.patched((U, "_normalize_header", norm_stub(c, norm))):
+        out = c.call(c.fn(M, "HTTPHeaders.__getitem__"), h, name)
+    c.only_raises(out, (KeyError,))
+    key = norm(name.t)
+    present = z3.Select(L0[0], key)
+    c.oblige("raises/KeyError-iff-the-name-is-absent", SBool(present) == out.returned)
+    if out.returned:
+        cj = z3.Function("comma_join", z3.SeqSort(z3.StringSort()), z3.StringSort())
+        v = out.value.t if isinstance(out.value, SStr) else z3.StringVal(out.value)
+        c.oblige("post/value-is-the-memo-or-the-comma-join", SBool(v == z3.If(z3.Select(C0[0], key), z3.Select(C0[1], key), cj(z3.Select(L0[1], key)))))
+        c.oblige("post/memoized-under-the-normalized-name", SBool(z3.And(z3.Select(h._combined_cache.has, key), z3.Select(h._combined_cache.val, key) == v)))
+    k = z3.String("ok")
+    c.oblige("frame/list-view-unchanged", SBool(z3.ForAll([k], z3.And(z3.Select(h._as_list.has, k) == z3.Select(L0[0], k), z3.Select(h._as_list.val, k) == z3.Select(L0[1], k)))), kind="frame")
+    c.oblige("frame/memo-of-other-names-untouched", SBool(z3.ForAll([k], z3.Implies(k != key, z3.And(
+        z3.Select(h._combined_cache.has, k) == z3.Select(C0[0], k), z3.Select(h._combined_cache.val, k) == z3.Select(C0[1], k))))), kind="frame")
+    c.oblige("inv/preserved", inv_after(h), kind="inv-preserve")
+
+
+NORM_BASES = ["foo", "content-type", "x-sha256sum", "x_request_id", "x-b3-traceid", "a", "a-b-c", "etag2", "x--y", "-lead", "trail-", "x-1a-b", "x.y-z", "sec-websocket-key1"]
+NORM_CASINGS = ["lower", "upper", "title", "capitalize-words", "swap-title", "alternate", "alternate2", "first-lower"]
+
+
+def _casing(base, how):
+    if how == "lower":
+        return base
+    if how == "upper":
+        return base.upper()
+    if how == "title":
+        return base.title()
+    if how == "capitalize-words":
+        return "-".join(w.capitalize() for w in base.split("-"))
+    if how == "swap-title":
+        return base.title().swapcase()
+    if how == "alternate":
+        return "".join(ch.upper() if i % 2 else ch for i, ch in enumerate(base))
+    if how == "alternate2":
+        return "".join(ch if i % 2 else ch.upper() for i, ch in enumerate(base))
+    t = base.title()
+    return t[:1].lower() + t[1:]
+
+
+@unit("C06", "_normalize_header.case-insensitive", [(M, "_normalize_header")], bounded="finite case analysis: %d field names x %d spellings through the real function" % (len(NORM_BASES), len(NORM_CASINGS)))
+def u_normalize(c):
+    """A-NORM discharged on a finite family: every spelling of a name maps to one key (the key of its lower-case spelling), different names to different keys,
+    the key is itself a spelling of the name and the function is idempotent.  This is what makes the multimap of the other units case-insensitive."""
+    base = c.choose("name", NORM_BASES)
+    how = c.choose("spelling", NORM_CASINGS)
+    f = c.fn(M, "_normalize_header")
+    name = _casing(base, how)
+    out = c.call(f, name)
+    c.only_raises(out, ())
+    if not out.returned:
+        return
+    key = out.value
+    c.oblige("post/all-spellings-of-a-name-share-one-key", key == f(base))
+    c.oblige("post/key-is-a-spelling-of-the-name", key.lower() == base)
+    c.oblige("post/idempotent", f(key) == key)
+    c.oblige("post/different-names-have-different-keys", all(f(o) != key for o in NORM_BASES if o != base))
+    import tornado.httputil as U
+    h = U.HTTPHeaders()
+    h.add(base, "1")
+    h.add(name, "2")
+    c.oblige("post/map-level: two spellings are one entry", len(h) == 1 and h.get_list(base.upper()) == ["1", "2"] and name in h and list(h) == [key])
+
+
 def u_concrete(c, op):
     """run-time reading of the same clauses on a small concrete Inv-state (cross-check / replay)."""
     import tornado.httputil as U
@@ -169,12 +273,16 @@ def standin(tier, seed):
     t0 = time.time()
     evals, nontriv, failures, samples = 0, set(), [], []
     NAMES = ["foo", "FOO", "Bar-x"]
+    NAMES2 = ["X-Sha256Sum", "x-sha256sum", "X_Request_Id", "x_request_id", "X-SHA256SUM"]
     VALS = ["1", "a,b", "x y"]
 
     def norm(n):
         return "-".join(w.capitalize() for w in n.split("-"))
-    OPS = ([("add", n, v) for n in NAMES for v in VALS[:2]] + [("set", n, VALS[2]) for n in NAMES] + [("del", n) for n in NAMES]
-           + [("get", n) for n in NAMES[:2]] + [("fold", " cont")] + [("line", "%s: %s\r\n" % (NAMES[1], VALS[0]))] + [("copy",)])
+    def mkops(NAMES):
+        return ([("add", n, v) for n in NAMES for v in VALS[:2]] + [("set", n, VALS[2]) for n in NAMES] + [("del", n) for n in NAMES]
+                + [("get", n) for n in NAMES[:2]] + [("fold", " cont")] + [("line", "%s: %s\r\n" % (NAMES[1], VALS[0]))] + [("copy",)])
+    OPS = mkops(NAMES)
+    OPS2 = mkops(NAMES2)      # names with digits / underscores inside words (where str.title / istitle and per-word capitalize disagree); random phase only
 
     def run(seq):
         h, ref, last = U.HTTPHeaders(), [], None      # ref: list of [norm_name, [values]] in insertion order
@@ -278,7 +386,7 @@ def standin(tier, seed):
             break
     N = 3000 if tier == "quick" else 100000
     for _ in range(N if not failures else 0):
-        seq = tuple(rng.choice(OPS) for _ in range(rng.randint(depth + 1, 8)))
+        seq = tuple(rng.choice(OPS if _ % 2 else OPS2) for _i in range(rng.randint(depth + 1 if _ % 2 else 2, 8)))
         evals += 1
         fail, nt = run(seq)
         if nt:
@@ -287,6 +395,6 @@ def standin(tier, seed):
             failures.append({"what": fail, "history": [list(o) for o in seq]})
     return {"evaluations": evals, "distinct_nontrivial": len(nontriv), "failures": failures, "samples": samples,
             "rule": "all sequences of <= %d operations from %d (add/set/del/get/get_list/contains/obs-fold/parse_line/copy over names %s), then %d seeded random "
-                    "sequences up to length 8, on the real HTTPHeaders vs a reference insertion-ordered multimap; whole view compared after every step, str/parse round "
-                    "trip at the end; non-trivial = some name has >= 2 values or a folded line" % (depth, len(OPS), NAMES, N),
+                    "sequences up to length 8 (half of them over the names %s), on the real HTTPHeaders vs a reference insertion-ordered multimap; whole view compared after every step, str/parse round "
+                    "trip at the end; non-trivial = some name has >= 2 values or a folded line" % (depth, len(OPS), NAMES, N, NAMES2),
             "exhaustive_to_depth": depth, "wall_s": round(time.time() - t0, 2)}
